@@ -58,7 +58,7 @@ def describe(tier):
                    else 'the FULL box keys 0..80 x messages 0..200 x outputs 1..200'),
         'bounds': 'quick: boundary grid; thorough: full box 81 x 201 x 200 per digest',
         'assumptions': ['key and message bytes are DRBG values (one per length); distinctness is decided on a 2000-element DRBG set'],
-        'must_be_nonzero': ['prf-equal-reference', 'hash-equal-reference', 'tls-vector', 'hash-long-output-equal-reference', 'prf-long-output-equal-reference', 'prf-objects-alive-at-once', 'contract-refused', 'distinct-set', 'prf-histories'],
+        'must_be_nonzero': ['prf-equal-reference', 'hash-equal-reference', 'tls-vector', 'hash-long-output-equal-reference', 'prf-long-output-equal-reference', 'prf-objects-alive-at-once', 'prf-object-forms', 'contract-refused', 'distinct-set', 'prf-histories'],
     }
 
 
@@ -160,6 +160,19 @@ def run_unit(p, tier, seed):
                     r.v(PROPERTY, 'hash-wrapper', 'differs-from-reference', 'length' if len(got) != n else 'value', case, ref.hex(), got.hex())
                 else:
                     r.count('hash-equal-reference')
+        # a pickled copy / a deep copy of a wrapper object is the same function
+        import pickle as _pickle, copy as _copy
+        for n in (7, 33, 100):
+            o = H(output_length=n)
+            for how, mk in (('pickled', lambda: _pickle.loads(_pickle.dumps(o))), ('deep-copied', lambda: _copy.deepcopy(o))):
+                r['evaluations'] += 1
+                try:
+                    if mk()(b'round trip') != o(b'round trip'):
+                        r.v(PROPERTY, 'hash-wrapper', 'differs-from-reference', 'object-roundtrip/' + how, {'hash': h, 'output_length': n}, 'same function', 'differs')
+                    else:
+                        r.count('hash-object-forms')
+                except Exception:
+                    r.count('hash-object-not-copyable (not demanded)')
         # outputs of hundreds of blocks: around the point where a block counter needs a second byte, and far beyond
         ds_ = 32 if h.startswith('shake') else hashlib.new(h).digest_size
         for ml in (0, 1, 5, 64, 200):
@@ -315,11 +328,26 @@ def run_unit(p, tier, seed):
         # both declared, every digest: each contract is enforced on its own
         for h in PRF_DIGESTS:
             for kl, ml in ((16, 8), (33, 24), (1, 1)):
-                f = PRF(output_length=24, key_length=kl, message_length=ml, hash_func_name=h)
-                for ak, am in ((kl, ml + 1), (kl, ml - 1), (kl + 1, ml), (kl - 1, ml), (kl + 1, ml + 1)):
-                    must_raise('both-declared', lambda: f(bytes(ak), bytes(am)), {'digest': h, 'declared': [kl, ml], 'actual': [ak, am]})
-                if f(b'K' * kl, b'M' * ml) != p_hash(b'K' * kl, b'M' * ml, 24, h):
-                    r.v(PROPERTY, 'HmacPRF', 'differs-from-rfc5246', 'both-declared', {'digest': h, 'declared': [kl, ml]}, 'reference', 'differs')
+                f0 = PRF(output_length=24, key_length=kl, message_length=ml, hash_func_name=h)
+                import pickle as _pickle, copy as _copy
+                # the object itself, a pickled copy, a deep copy and a shallow copy: the same function with the same contract,
+                # called with positional and with keyword arguments
+                forms = {'object': f0}
+                for nm, mk in (('pickled', lambda: _pickle.loads(_pickle.dumps(f0))), ('pickled-protocol-2', lambda: _pickle.loads(_pickle.dumps(f0, 2))),
+                               ('deep-copied', lambda: _copy.deepcopy(f0)), ('copied', lambda: _copy.copy(f0))):
+                    try:
+                        forms[nm] = mk()
+                    except Exception:
+                        r.count('prf-object-not-copyable (not demanded)')     # that an object can be pickled at all is not part of the property
+                for nm, f in forms.items():
+                    for ak, am in ((kl, ml + 1), (kl, ml - 1), (kl + 1, ml), (kl - 1, ml), (kl + 1, ml + 1)):
+                        must_raise('both-declared' + ('' if nm == 'object' else '/' + nm), lambda: f(bytes(ak), bytes(am)), {'digest': h, 'declared': [kl, ml], 'actual': [ak, am], 'form': nm})
+                        must_raise('both-declared/keyword-call' + ('' if nm == 'object' else '/' + nm), lambda: f(key=bytes(ak), message=bytes(am)), {'digest': h, 'declared': [kl, ml], 'actual': [ak, am], 'form': nm})
+                    want = p_hash(b'K' * kl, b'M' * ml, 24, h)
+                    if f(b'K' * kl, b'M' * ml) != want or f(key=b'K' * kl, message=b'M' * ml) != want:
+                        r.v(PROPERTY, 'HmacPRF', 'differs-from-rfc5246', 'both-declared' + ('' if nm == 'object' else '/' + nm), {'digest': h, 'declared': [kl, ml], 'form': nm}, 'reference', 'differs')
+                    else:
+                        r.count('prf-object-forms')
         # several PRF objects with DIFFERENT declared lengths alive at once, used in every order after all of them exist: each
         # enforces its own contract and computes its own function
         objs = {'A': (PRF(output_length=24, key_length=16, message_length=8), 16, 8, 24, 'sha1'),
